@@ -85,3 +85,13 @@ Definition ack_ok : bool :=
   match find_enum "zvt::io::Ack" with Some vs => same_set (map v_cf vs) ack_replies | None => false end.
 Lemma upload_and_ack_agree_with_spec : upload_ok && ack_ok = true.
 Proof. vm_compute. reflexivity. Qed.
+
+(* the upload's path -> file id table (C11) *)
+Fixpoint paths_eqb (a c : list (string * N)) : bool :=
+  match a, c with
+  | [], [] => true
+  | (p, i) :: r, (q, j) :: s => String.eqb p q && (i =? j) && paths_eqb r s
+  | _, _ => false
+  end.
+Lemma upload_paths_agree_with_spec : paths_eqb upload_paths upload_file_ids = true.
+Proof. vm_compute. reflexivity. Qed.
